@@ -268,9 +268,9 @@ def _params(rng, names, kind):
     return ps
 
 
-def gen_world(rng, modname, mixed):
+def gen_world(rng, modname, mixed, max_ds=6):
     names, firsts, dss = [], [], []
-    n = rng.randint(3, 6)
+    n = rng.randint(3, max_ds)
     for i in range(n):
         name = f"g{i}"
         form = "decorator" if mixed and rng.random() < 0.4 else "explicit"
@@ -333,6 +333,38 @@ def gen_world(rng, modname, mixed):
     return {"module": modname, "datasets": dss, "derived": derived}
 
 
+def fixed_spec(modname, form):
+    """A hand-written module that exercises every construct, in one form (runs first, every run)."""
+    def sub(name, params, kind="tag"):
+        return {"name": name, "form": form, "kind": kind, "params": params}
+    dss = [
+        {"name": "m0", "form": form, "kind": "first", "params": [["m", ["optd", "M.SRC", "x"]]], "overloads": []},
+        {"name": "g0", "form": form, "kind": "tag",
+         "params": [["a", ["opt", "A"]], ["b", ["optd", "S.X", 7]], ["c", ["optdo", "B", "T.U.V"]]],
+         "dispatch": ["key", "D1"], "options": {"S": {"Y": 2}}, "default_options": {"A": 5, "T": {"U": {"V": 8}}},
+         "callback": ["cb1"], "effects": ["eff1"],
+         "overloads": [
+             {"how": "register", "aliases": ["x"], "target": ["opt", "C"]},
+             {"how": "overload", "aliases": ["y"], "target": ["new", sub("g0_y", [["c", ["opt", "C"]]])]},
+             {"how": "stacked", "aliases": [1, 2], "target": ["new", sub("g0_s", [["y", ["opt", "S.Y"]]])]},
+             {"how": "list", "aliases": ["zz", None], "target": ["new", sub("g0_l", [["k", ["const", 3]]], "raise_if")]}]},
+        {"name": "g1", "form": form, "kind": "tag", "params": [], "dispatch": ["ds", "m0"], "abstract": True,
+         "overloads": [
+             {"how": "register", "aliases": ["x"], "target": ["ds", "g0"]},
+             {"how": "overload", "aliases": ["y"], "target": ["new", sub("g1_y", [["a", ["opt", "A"]], ["g", ["ds", "g0"]]])]}]},
+        {"name": "g2", "form": form, "kind": "raise_if", "params": [["p", ["opt", "B"]], ["q", ["ds", "g0"]]],
+         "nocache": True, "callback": ["cb1", "cb2"], "effects": ["eff1", "eff2"], "overloads": []},
+        {"name": "g3", "form": form, "kind": "tag", "params": [["a", ["optd", "A", None]]],
+         "dispatch": ["optd", "D2", "x"], "effects": ["eff2", "eff_raise"], "options": {"D2": "x"},
+         "overloads": [{"how": "register", "aliases": ["x"], "target": ["const", 42]},
+                       {"how": "register", "aliases": ["y"], "target": ["ds", "g2"]}]},
+    ]
+    derived = [{"name": "g0_w", "base": "g0", "how": "with_options", "options": {"D1": "y", "C": "pre"}},
+               {"name": "g0_d", "base": "g0", "how": "with_default_options", "options": {"C": 9, "S": {"X": 1}}},
+               {"name": "g1_w", "base": "g1", "how": "with_options", "options": {"M": {"SRC": "y"}}}]
+    return {"module": modname, "datasets": dss, "derived": derived}
+
+
 def used_aliases(spec):
     out = []
     for ds in spec["datasets"]:
@@ -363,8 +395,8 @@ def gen_dicts(rng, spec, quick):
         dicts.append(_nest(f))
     for dk in DKEYS:                                            # dispatch values registered / unregistered
         vals = als + ["nope"]
-        if quick and len(vals) > 4:
-            vals = rng.sample(als, 3) + ["nope"]
+        if quick and len(vals) > 3:
+            vals = rng.sample(als, 2) + ["nope"]
         for a in vals:
             f = dict(full_flat)
             f[dk] = a
@@ -1601,17 +1633,23 @@ def run_specs(ctx, specs_dicts, hashseeds, only=None, quick=True):
             if name != "__bundles__":
                 rec["alias"], rec["rdicts"] = mr.reg_dicts(name)
         mr.phase_bundles()
-    # children: everything pickled so far, one interpreter per hash seed
+    # children: everything pickled so far; the first hash seed gets every protocol (its items are
+    # split over a few interpreters), the others a sample
     children = []
-    for hs in hashseeds:
-        items = []
-        for mr in runs:
-            items += mr.child_items(PROTOCOLS if (not quick or hs == hashseeds[0]) else [2, 5], protos_warm)
-        jobfile = os.path.join(ctx.scratch.dir, f"job_{hs}.json")
-        outfile = os.path.join(ctx.scratch.dir, f"out_{hs}.json")
-        with open(jobfile, "w") as fh:
-            json.dump({"items": items, "out": outfile}, fh)
-        children.append((hs, start_child(ctx.scratch.dir, jobfile, hs), outfile, len(items), time.time()))
+    for hi, hs in enumerate(hashseeds):
+        full = (hi == 0) or not quick
+        per_mod = [mr.child_items(PROTOCOLS if full else [2, 5], (protos_warm if full else protos_warm[:1]))
+                   for mr in runs]
+        n_chunks = min(len(per_mod), (3 if quick else 6) if full else (1 if quick else 6))
+        for c in range(n_chunks):
+            items = [it for k, its in enumerate(per_mod) if k % n_chunks == c for it in its]
+            if not items:
+                continue
+            jobfile = os.path.join(ctx.scratch.dir, f"job_{hs}_{c}.json")
+            outfile = os.path.join(ctx.scratch.dir, f"out_{hs}_{c}.json")
+            with open(jobfile, "w") as fh:
+                json.dump({"items": items, "out": outfile}, fh)
+            children.append((hs, start_child(ctx.scratch.dir, jobfile, hs), outfile, len(items), time.time()))
     for mr in runs:
         mr.phase_copies(protos_warm)
         mr.phase_state_model()
@@ -1655,7 +1693,13 @@ def model_compare(ctx, runs, name="Cases_C20"):
         return 0, mism
     req = ["Model.Base", "Model.Pickle", "Model.PickleRun"]
     exprs = [f"digest ({c[0]})" if c[0].startswith("show_roundtrip") else c[0] for c in cases]
-    lines = ctx.coq_eval(name, req, "Open Scope N_scope.", exprs, shard=150)
+    uniq = list(dict.fromkeys(exprs))      # the same model expression serves every protocol / interpreter
+    uniq.sort(key=len)                     # shards of similar cost
+    n_sh = max(1, min(16, len(uniq) // 40), -(-len(uniq) // 400))
+    order = [u for k in range(n_sh) for u in uniq[k::n_sh]]
+    per = -(-len(order) // n_sh)
+    got = dict(zip(order, ctx.coq_eval(name, req, "Open Scope N_scope.", order, shard=per)))
+    lines = [got[e] for e in exprs]
     bad = []
     for (expr, impl, payload), ml in zip(cases, lines):
         want = py_digest(impl) if expr.startswith("show_roundtrip") else impl
@@ -1684,12 +1728,15 @@ def _around(a, b, width=260):
 def run(ctx):
     rng = ctx.rng
     quick = ctx.quick
-    n_mod = 8 if quick else 40
+    n_mod = 5 if quick else 40
     tagid = f"{ctx.seed}_{os.getpid()}"
     specs = []
+    for form in ("explicit", "decorator"):
+        spec = fixed_spec(f"c20f_{tagid}_{form}", form)
+        specs.append((spec, gen_dicts(rng, spec, quick)))
     for k in range(n_mod):
         mixed = (k % 2 == 1)
-        spec = gen_world(rng, f"c20m_{tagid}_{k}", mixed)
+        spec = gen_world(rng, f"c20m_{tagid}_{k}", mixed, max_ds=5 if quick else 6)
         specs.append((spec, gen_dicts(rng, spec, quick)))
     hashseeds = [0, rng.randint(1, 4_000_000)] if quick else [0] + [rng.randint(1, 4_000_000) for _ in range(3)]
     runs, child_stats = run_specs(ctx, specs, hashseeds, quick=quick)
@@ -1746,7 +1793,7 @@ def run(ctx):
         "correspondence_mismatches": mism[:5],
         "violations": viol[:40],
         "known": [{"id": "D18", "still_fails": still, "what": D18_WHAT, "witness": wit}],
-        "distribution": dict(stats, modules=n_mod, forms=forms, features=feats, children=child_stats, hashseeds=hashseeds,
+        "distribution": dict(stats, modules=len(specs), forms=forms, features=feats, children=child_stats, hashseeds=hashseeds,
                              model_cases=n_model, mismatches=len(mism), violations_total=len(viol),
                              violations_tagged_D18=sum(1 for v in viol if v.get("finding") == "D18")),
         "exhaustive": False,
